@@ -194,56 +194,137 @@ def run_cases(header: list[str], cases: list[str], pristine: bool = False, **kw:
 
 
 _SCRATCH = ""
+_POOL: Any = None
 
 
-def pool_map(fn: Callable[[Any], Any], tasks: list[Any]) -> Iterable[Any]:
+def _init_worker(scratch_dir: str) -> None:
+    global _SCRATCH, _CACHE
+    _SCRATCH = scratch_dir
+    _CACHE = None
+
+
+def pool_map(fn: Callable[[Any], Any], tasks: list[Any]) -> list[Any]:
+    """Run self-contained tasks on the persistent worker pool (each worker keeps a warm mypy cache).
+    A worker that dies (e.g. killed for memory) breaks the pool: machinery failure, never a hang."""
+    global _POOL
     if not tasks:
         return []
-    ctx = mp.get_context("fork")
-    with ctx.Pool(min(NPROC, len(tasks))) as p:
-        return p.map(fn, tasks, chunksize=1)
+    from concurrent.futures import ProcessPoolExecutor
+    from concurrent.futures.process import BrokenProcessPool
+    if _POOL is None:
+        _POOL = ProcessPoolExecutor(NPROC, mp_context=mp.get_context("fork"), initializer=_init_worker, initargs=(_SCRATCH,))
+    try:
+        return list(_POOL.map(fn, tasks))
+    except BrokenProcessPool as e:
+        raise MachineryError("a worker process died while running %s: %s" % (fn.__name__, e))
+
+
+_TLC_JOBS: dict[tuple[str, str], dict[str, Any]] = {}
+_TLC_FUT: dict[tuple[str, str], Any] = {}
+
+
+def tlc_jobs(tier: str, seed: int) -> dict[tuple[str, str], dict[str, Any]]:
+    """Every TLC run of this tier with its options (MC_* = invariants of the rule, Gen_* = emission)."""
+    j: dict[tuple[str, str], dict[str, Any]] = {}
+    for tag in (["3x2"] if tier == "quick" else ["4x3"]) + ([os.environ["C12_ARGBIND_EXTRA"]] if os.environ.get("C12_ARGBIND_EXTRA") else []):
+        j[("MC_ArgBind", "MC_ArgBind_%s.cfg" % tag)] = dict(coverage=False, workers=4)
+        j[("MC_ArgBind", "Gen_ArgBind_%s.cfg" % tag)] = dict(workers=4, timeout=1800)
+    j[("MC_ArgBind", "Gen_ArgBind_4x4sim.cfg")] = dict(workers=2, simulate="num=%d" % (2 * ab_nsim(tier)), depth=5,
+                                                        seed=seed * 7919 + 11, coverage=False)
+    j[("MC_C3", "MC_C3_5.cfg")] = dict(workers=4)
+    j[("MC_C3", "Gen_C3_5.cfg")] = dict(workers=2, coverage=False)
+    if tier != "quick":
+        j[("MC_C3", "MC_C3_6.cfg")] = dict(timeout=1500, workers=8)
+        j[("MC_C3", "Gen_C3_6sim.cfg")] = dict(workers=2, coverage=False, simulate="num=12000", depth=7, seed=seed * 7919 + 13)
+    j[("MC_Reach", "MC_Reach.cfg")] = dict(coverage=False, workers=4)
+    j[("MC_Reach", "Gen_Reach.cfg")] = dict(workers=4)
+    for layer in (["L1", "L2q", "L3q"] if tier == "quick" else ["L1", "L2t", "L3t"]):
+        j[("MC_Fold", "MC_Fold_%s.cfg" % layer)] = dict(workers=4)
+        j[("MC_Fold", "Gen_Fold_%s.cfg" % layer)] = dict(workers=2, coverage=False, timeout=1800)
+    return j
+
+
+def tlc_prefetch(tier: str, seed: int, parts: list[str]) -> None:
+    """Start all TLC runs now, a few at a time, so that replay of one part overlaps TLC of the next."""
+    _TLC_JOBS.update(tlc_jobs(tier, seed))
+    ex = ThreadPoolExecutor(4)
+    order = {"argbind": "MC_ArgBind", "c3": "MC_C3", "reach": "MC_Reach", "fold": "MC_Fold"}
+    for part in parts:
+        for key, kw in _TLC_JOBS.items():
+            if key[0] == order[part]:
+                _TLC_FUT[key] = ex.submit(tlc, key[0], key[1], **kw)
+    ex.shutdown(wait=False)
+
+
+def tlc_checked(module: str, cfg: str) -> Any:
+    key = (module, cfg)
+    if key in _TLC_FUT:
+        r = _TLC_FUT.pop(key).result()
+    else:
+        r = tlc(module, cfg, **_TLC_JOBS.get(key, {}))
+    if r.error:
+        raise MachineryError("TLC %s/%s: %s" % (module, cfg, r.error))
+    if r.violated:
+        raise MachineryError("specification %s violates its own invariant %s under %s (the transcription of the "
+                             "run-time rule is inconsistent):\n%s" % (module, r.violated, cfg, r.trace_text[-1500:]))
+    return r
+
+
+def ab_nsim(tier: str) -> int:
+    return int(os.environ.get("C12_ARGBIND_NSIM", "0")) or (25 if tier == "quick" else 1500)
 
 
 # =========================================================================== 1-minimal failing inputs
-def minimise(items: list[tuple[Any, str]], reductions: Callable[[Any], list[Any]],
-             kind_batch: Callable[[list[Any]], list[str | None]], ident: Callable[[Any], str],
-             memo: dict[str, str | None] | None = None) -> list[dict[str, Any]]:
-    """Greedy descent of every failing input to a 1-minimal one (no single removal keeps the same
-    kind of failure).  All current inputs are reduced together, so the real evaluations needed for
-    candidates outside `memo` come in a few batches.  Returns one entry per distinct minimal input."""
-    memo = {} if memo is None else memo
+def minimise(items: list[tuple[Any, str]], reductions: Callable[[Any], list[list[Any]]],
+             kind_batch: Callable[[list[Any]], list[str | None]], ident: Callable[[Any], Any]) -> list[dict[str, Any]]:
+    """Greedy descent of every failing input to a 1-minimal one: no single reduction step keeps the
+    same kind of failure.  `reductions(x)` gives the one-step simplifications of x in groups of
+    decreasing preference (a later group is only evaluated when no candidate of the earlier groups
+    fails).  All current inputs are reduced together, so the real evaluations come in few batches.
+    Returns one entry per distinct minimal input with the number of explored inputs it explains."""
+    memo: dict[Any, str | None] = {}
+    cur: dict[Any, dict[str, Any]] = {}
     for x, kind in items:
         memo[ident(x)] = kind
-    cur: dict[str, dict[str, Any]] = {}
-    for x, kind in items:
-        e = cur.setdefault(ident(x) + "#" + kind, {"input": x, "kind": kind, "count": 0, "example": x})
+        e = cur.setdefault((ident(x), kind), {"input": x, "kind": kind, "count": 0, "example": x})
         e["count"] += 1
-    minimal: dict[str, dict[str, Any]] = {}
+    minimal: dict[Any, dict[str, Any]] = {}
     guard = 0
     while cur:
         guard += 1
-        if guard > 64:
+        if guard > 200:
             raise MachineryError("minimisation does not terminate")
-        per = {cid: reductions(e["input"]) for cid, e in cur.items()}
-        todo: dict[str, Any] = {}
-        for cands in per.values():
-            for c in cands:
-                if ident(c) not in memo:
-                    todo[ident(c)] = c
-        if todo:
-            ks = list(todo)
-            for k, kind in zip(ks, kind_batch([todo[k] for k in ks])):
-                memo[k] = kind
-        nxt: dict[str, dict[str, Any]] = {}
+        groups = {cid: reductions(e["input"]) for cid, e in cur.items()}
+        stepped: dict[Any, Any] = {}
+        depth = max((len(g) for g in groups.values()), default=0)
+        for level in range(depth):
+            todo: dict[Any, Any] = {}
+            for cid, g in groups.items():
+                if cid in stepped or level >= len(g):
+                    continue
+                for c in g[level]:
+                    k = ident(c)
+                    if k not in memo:
+                        todo[k] = c
+            if todo:
+                ks = list(todo)
+                for k, kind in zip(ks, kind_batch([todo[k] for k in ks])):
+                    memo[k] = kind
+            for cid, g in groups.items():
+                if cid in stepped or level >= len(g):
+                    continue
+                hit = next((c for c in g[level] if memo[ident(c)] == cur[cid]["kind"]), None)
+                if hit is not None:
+                    stepped[cid] = hit
+        nxt: dict[Any, dict[str, Any]] = {}
         for cid, e in cur.items():
-            step = next((c for c in per[cid] if memo[ident(c)] == e["kind"]), None)
-            if step is None:
+            if cid in stepped:
+                n = nxt.setdefault((ident(stepped[cid]), e["kind"]),
+                                   {"input": stepped[cid], "kind": e["kind"], "count": 0, "example": e["example"]})
+                n["count"] += e["count"]
+            else:
                 m = minimal.setdefault(cid, {"input": e["input"], "kind": e["kind"], "count": 0, "example": e["example"]})
                 m["count"] += e["count"]
-            else:
-                n = nxt.setdefault(ident(step) + "#" + e["kind"],
-                                   {"input": step, "kind": e["kind"], "count": 0, "example": e["example"]})
-                n["count"] += e["count"]
         cur = nxt
     return list(minimal.values())
 
@@ -260,6 +341,8 @@ _CPY_CLASSES = [
     (re.compile(r"missing \d+ required positional argument"), "missingpos"),
     (re.compile(r"missing \d+ required keyword-only argument"), "missingkw"),
 ]
+AB_ALLNAMES = NAMES + "z"
+AB_MAXTD = 2
 
 
 def sig_text(sig: list[dict[str, Any]], fname: str = "f", ann: bool = True) -> str:
@@ -300,11 +383,12 @@ def call_text(call: list[dict[str, Any]], fname: str = "f", pretty: bool = False
     return "%s(%s)" % (fname, ", ".join(parts))
 
 
-def ab_header(names: str, maxtd: int) -> list[str]:
+def ab_header() -> list[str]:
+    """Declarations the generated modules share: one TypedDict per key set, the three tuples."""
     import itertools
     h = ["from typing import TypedDict"]
-    for k in range(maxtd + 1):
-        for ks in itertools.combinations(sorted(names), k):
+    for k in range(AB_MAXTD + 1):
+        for ks in itertools.combinations(AB_ALLNAMES, k):
             nm = "".join(ks)
             h.append("TD_%s = TypedDict('TD_%s', {%s})" % (nm, nm, ", ".join("'%s': int" % x for x in ks)))
             h.append("d_%s: TD_%s" % (nm, nm))
@@ -312,11 +396,11 @@ def ab_header(names: str, maxtd: int) -> list[str]:
     return h
 
 
-def ab_runtime_ns(names: str, maxtd: int) -> dict[str, Any]:
+def ab_runtime_ns() -> dict[str, Any]:
     import itertools
     ns: dict[str, Any] = {"t0": (), "t1": (1,), "t2": (1, 1)}
-    for k in range(maxtd + 1):
-        for ks in itertools.combinations(sorted(names), k):
+    for k in range(AB_MAXTD + 1):
+        for ks in itertools.combinations(AB_ALLNAMES, k):
             ns["d_" + "".join(ks)] = {x: 1 for x in ks}
     return ns
 
@@ -334,18 +418,23 @@ def cpy_bind(fn: Any, lam: Any) -> str:
         return "other:" + s
 
 
-_AB: dict[str, Any] = {}
+def ab_kind(cc: str, mk: str, md: Any) -> str | None:
+    if mk == "crash":
+        return "crash:" + md.split(":")[0]
+    if mk == "ok" and cc:
+        return "false_accept"
+    if mk == "rej" and not cc:
+        return "false_reject"
+    return None
 
 
-def ab_eval_pairs(sigs: list[Any], calls: list[Any], pairs: list[tuple[int, int]], pristine: bool = False,
-                  want_differ: bool = False) -> tuple[list[tuple[str, Any]], list[Any], int]:
+def ab_eval_pairs(sigs: list[Any], calls: list[Any], pairs: list[tuple[int, int]],
+                  pristine: bool = False) -> tuple[list[str], list[Any], int, int]:
     """CPython outcome and mypy outcome of every (sig index, call index) pair."""
-    names = _AB["names"]
-    ns = dict(ab_runtime_ns(names, _AB["maxtd"]))
-    used_s = sorted({s for s, _ in pairs})
-    header = ab_header(names, _AB["maxtd"])
+    ns = ab_runtime_ns()
+    header = ab_header()
     fns: dict[int, Any] = {}
-    for s in used_s:
+    for s in sorted({s for s, _ in pairs}):
         src = sig_text(sigs[s], "f%d" % s)
         header.append(src)
         exec(src, ns)  # the same text mypy sees
@@ -359,19 +448,16 @@ def ab_eval_pairs(sigs: list[Any], calls: list[Any], pairs: list[tuple[int, int]
         cpy.append(cpy_bind(fns[s], lams[c]))
         lines.append(call_text(calls[c], "f%d" % s))
     my, builds, differ = run_cases(header, lines, pristine=pristine)
-    if want_differ:
-        return [(x, None) for x in cpy], my, builds, differ  # type: ignore[return-value]
-    return [(x, None) for x in cpy], my, builds
+    return cpy, my, builds, differ
 
 
-def ab_chunk(task: tuple[list[int], int, int]) -> dict[str, Any]:
-    sidx, clo, chi = task
-    sigs, calls, vec = _AB["sigs"], _AB["calls"], _AB["vec"]
-    pairs = [(s, c) for c in range(clo, chi) for s in sidx]
-    cpy, my, builds, differ = ab_eval_pairs(sigs, calls, pairs, want_differ=True)
+def ab_chunk(task: tuple[list[Any], list[Any], list[Any]]) -> dict[str, Any]:
+    sigs, calls, vec = task
+    pairs = [(s, c) for c in range(len(calls)) for s in range(len(sigs))]
+    cpy, my, builds, differ = ab_eval_pairs(sigs, calls, pairs)
     out: dict[str, Any] = {"n": len(pairs), "builds": builds, "drift": [], "bad": [], "codes": {}, "cpy_rej": 0,
                            "my_rej": 0, "sample": None, "differ": differ}
-    for (s, c), (cc, _), (mk, md) in zip(pairs, cpy, my):
+    for (s, c), cc, (mk, md) in zip(pairs, cpy, my):
         mask = vec[c][s]
         if (cc == "") != (mask == 0) or (cc and (cc.startswith("other:") or not (mask & ERRBITS[cc]))):
             out["drift"].append((s, c, cc, mask))
@@ -381,88 +467,136 @@ def ab_chunk(task: tuple[list[int], int, int]) -> dict[str, Any]:
             out["my_rej"] += 1
             for _, code in md:
                 out["codes"][code] = out["codes"].get(code, 0) + 1
-        if mk == "crash":
-            out["bad"].append((s, c, "crash:" + md.split(":")[0], cc, md))
-        elif mk == "ok" and cc:
-            out["bad"].append((s, c, "false_accept", cc, None))
-        elif mk == "rej" and not cc:
-            out["bad"].append((s, c, "false_reject", cc, md))
-        if out["sample"] is None and cc and mk == "rej":
+        kind = ab_kind(cc, mk, md)
+        if kind:
+            out["bad"].append((s, c, kind))
+        if out["sample"] is None and cc and mk == "rej" and len(calls[c]) >= 2:
             out["sample"] = {"def": sig_text(sigs[s]), "call": call_text(calls[c]), "cpython": cc, "mypy": md, "spec_mask": mask}
     return out
 
 
-def ab_reductions(sig: list[Any], call: list[Any]) -> list[tuple[list[Any], list[Any]]]:
-    """All inputs obtained by removing one thing: an actual, a TypedDict key, a *tuple item, a parameter."""
-    res = []
+def ab_kind_task(xs: list[Any]) -> list[str | None]:
+    """Failure kind of arbitrary (signature, call) inputs, by really running CPython and mypy."""
+    sigs = [s for s, _ in xs]
+    calls = [c for _, c in xs]
+    cpy, my, _, _ = ab_eval_pairs(sigs, calls, [(i, i) for i in range(len(xs))])
+    return [ab_kind(cc, mk, md) for cc, (mk, md) in zip(cpy, my)]
+
+
+_KRANK = {"P": 0, "S": 1, "K": 2, "D": 3}
+
+
+def ab_wellformed_sig(sig: list[Any]) -> bool:
+    rank = {"PO": 0, "PK": 1, "VA": 2, "KO": 3, "VK": 4}
+    seen_default = False
+    for i, p in enumerate(sig):
+        if i and (rank[p["k"]] < rank[sig[i - 1]["k"]] or (p["k"] in ("VA", "VK") and p["k"] == sig[i - 1]["k"])):
+            return False
+        if p["k"] in ("PO", "PK"):
+            if not p["d"] and seen_default:
+                return False
+            seen_default = seen_default or p["d"]
+    return True
+
+
+def ab_wellformed_call(call: list[Any]) -> bool:
+    seen_k = seen_d = False
+    kws = set()
+    for a in call:
+        if a["k"] == "P" and (seen_k or seen_d):
+            return False
+        if a["k"] == "S" and seen_d:
+            return False
+        if a["k"] == "K":
+            if a["n"] in kws:
+                return False
+            kws.add(a["n"])
+            seen_k = True
+        if a["k"] == "D":
+            seen_d = True
+    return True
+
+
+def ab_reductions(x: tuple[Any, Any]) -> list[list[Any]]:
+    """One-step simplifications of an input, most wanted first:
+       0 remove an actual / a TypedDict key / a *tuple item;  1 remove a parameter (later names shift,
+       its own name becomes the unknown name);  2 give a parameter a default;  3 rename a name the
+       call uses to the unknown name `z`;  4 bring two adjacent actuals into the order
+       positional, *tuple, keyword, **mapping."""
+    sig, call = x
+    g0: list[Any] = []
     for i in range(len(call)):
-        res.append((sig, call[:i] + call[i + 1:]))
+        g0.append((sig, call[:i] + call[i + 1:]))
     for i, a in enumerate(call):
         if a["k"] == "D":
-            for k in sorted(a["ks"]):
-                res.append((sig, call[:i] + [dict(a, ks=sorted(set(a["ks"]) - {k}))] + call[i + 1:]))
+            for k in a["ks"]:
+                g0.append((sig, call[:i] + [dict(a, ks=[y for y in a["ks"] if y != k])] + call[i + 1:]))
         if a["k"] == "S" and a["l"] > 0:
-            res.append((sig, call[:i] + [dict(a, l=a["l"] - 1)] + call[i + 1:]))
+            g0.append((sig, call[:i] + [dict(a, l=a["l"] - 1)] + call[i + 1:]))
+    g1: list[Any] = []
     for j in range(len(sig)):
         ren = {NAMES[j]: "z"}
         for k in range(j + 1, len(sig)):
             ren[NAMES[k]] = NAMES[k - 1]
-        c2 = []
-        for a in call:
-            if a["k"] == "K":
-                c2.append(dict(a, n=ren.get(a["n"], a["n"])))
-            elif a["k"] == "D":
-                c2.append(dict(a, ks=sorted({ren.get(x, x) for x in a["ks"]})))
-            else:
-                c2.append(a)
-        kws = [a["n"] for a in c2 if a["k"] == "K"]
-        if len(kws) != len(set(kws)):
-            continue  # keyword argument repeated: not a call
-        res.append((sig[:j] + sig[j + 1:], c2))
-    return res
+        c2 = ab_rename(call, ren)
+        if c2 is not None:
+            g1.append((sig[:j] + sig[j + 1:], c2))
+    g2: list[Any] = []
+    for j, p in enumerate(sig):
+        if p["k"] in ("PO", "PK", "KO") and not p["d"]:
+            s2 = [dict(q, d=True) if (k == j or (k > j and p["k"] != "KO" and q["k"] in ("PO", "PK"))) else q
+                  for k, q in enumerate(sig)]
+            if ab_wellformed_sig(s2):
+                g2.append((s2, call))
+    g3: list[Any] = []
+    used = sorted({a["n"] for a in call if a["k"] == "K"} | {k for a in call if a["k"] == "D" for k in a["ks"]})
+    if "z" not in used:
+        for n in used:
+            c2 = ab_rename(call, {n: "z"})
+            if c2 is not None:
+                g3.append((sig, c2))
+    g4: list[Any] = []
+    for i in range(len(call) - 1):
+        if _KRANK[call[i]["k"]] > _KRANK[call[i + 1]["k"]]:
+            c2 = call[:i] + [call[i + 1], call[i]] + call[i + 2:]
+            if ab_wellformed_call(c2):
+                g4.append((sig, c2))
+    return [g0, g1, g2, g3, g4]
+
+
+def ab_rename(call: list[Any], ren: dict[str, str]) -> list[Any] | None:
+    c2 = []
+    for a in call:
+        if a["k"] == "K":
+            c2.append(dict(a, n=ren.get(a["n"], a["n"])))
+        elif a["k"] == "D":
+            ks = [ren.get(y, y) for y in a["ks"]]
+            if len(set(ks)) != len(ks):
+                return None  # two keys of one TypedDict would merge
+            c2.append(dict(a, ks=sorted(ks)))
+        else:
+            c2.append(a)
+    return c2 if ab_wellformed_call(c2) else None
 
 
 def canon_call(call: list[Any]) -> list[Any]:
     return [dict(k=a["k"], n=a.get("n", ""), l=a.get("l", 0), ks=sorted(a.get("ks", []))) for a in call]
 
 
+def ab_ident(x: tuple[Any, Any]) -> str:
+    sig, call = x
+    return ",".join(p["k"] + ("1" if p["d"] else "0") for p in sig) + "<-" + \
+        ",".join(a["k"] + (a["n"] if a["k"] == "K" else str(a["l"]) if a["k"] == "S" else "".join(a["ks"]) if a["k"] == "D" else "")
+                 for a in call)
+
+
 def ab_key(kind: str, sig: list[Any], call: list[Any]) -> str:
     return "argbind:%s:%s <- %s" % (kind, sig_text(sig, "f", ann=False), call_text(call, "f", pretty=True))
 
 
-def ab_kind(cc: str, mk: str, md: Any) -> str | None:
-    if mk == "crash":
-        return "crash:" + md.split(":")[0]
-    if mk == "ok" and cc:
-        return "false_accept"
-    if mk == "rej" and not cc:
-        return "false_reject"
-    return None
-
-
-def ab_kind_batch(inputs: list[tuple[Any, Any]]) -> list[str | None]:
-    """Failure kind of arbitrary (signature, call) inputs, by really running CPython and mypy."""
-    if not inputs:
-        return []
-    sigs = [s for s, _ in inputs]
-    calls = [c for _, c in inputs]
-    cpy, my, _ = ab_eval_pairs(sigs, calls, [(i, i) for i in range(len(inputs))])
-    return [ab_kind(cc, mk, md) for (cc, _), (mk, md) in zip(cpy, my)]
-
-
-def tlc_checked(module: str, cfg: str, **kw: Any) -> Any:
-    r = tlc(module, cfg, **kw)
-    if r.error:
-        raise MachineryError("TLC %s/%s: %s" % (module, cfg, r.error))
-    if r.violated:
-        raise MachineryError("specification %s violates its own invariant %s under %s (the transcription of the "
-                             "run-time rule is inconsistent):\n%s" % (module, r.violated, cfg, r.trace_text[-1500:]))
-    return r
-
-
 def ab_space(tag: str, np_: int, na: int, g: Any, failing: list[Any], cov: dict[str, Any],
              sample_calls: int | None = None, rnd: random.Random | None = None) -> dict[str, Any]:
-    """Replay one emitted signature x call space; returns the table of failures for look-up."""
+    """Replay one emitted signature x call space; returns the table of its failures for look-up."""
     sigs_l = g.json_lines("SIGS")
     rows = g.json_lines("CALL")
     if len(sigs_l) < 1 or not rows:
@@ -476,40 +610,34 @@ def ab_space(tag: str, np_: int, na: int, g: Any, failing: list[Any], cov: dict[
         assert rnd is not None
         rnd.shuffle(rows)
         rows = rows[:sample_calls]
-    # calls with several **mappings in chunks of their own (only efficiency: a module in which a
+    # calls with several **mappings go to chunks of their own (efficiency only: a module in which a
     # call line crashed is checked a second time without those lines)
     rows.sort(key=lambda r: sum(1 for a in r["c"] if a["k"] == "D") >= 2)
     calls = [canon_call(r["c"]) for r in rows]
     vec = [r["v"] for r in rows]
     if any(len(x) != len(sigs) for x in vec):
         raise MachineryError("ArgBind %s: verdict vector length" % tag)
-    names = NAMES[:np_] + "z"
-    _AB.update(sigs=sigs, calls=calls, vec=vec, names=names, maxtd=2)
     per = max(1, 8000 // len(sigs))
-    tasks = [(list(range(len(sigs))), lo, min(lo + per, len(calls))) for lo in range(0, len(calls), per)]
+    offs = list(range(0, len(calls), per))
     t0 = time.time()
-    outs = list(pool_map(ab_chunk, tasks))
+    outs = pool_map(ab_chunk, [(sigs, calls[lo:lo + per], vec[lo:lo + per]) for lo in offs])
     n = sum(o["n"] for o in outs)
-    drift = [d for o in outs for d in o["drift"]]
-    if drift:
-        s, c, cc, mask = drift[0]
-        raise MachineryError("ArgBind.tla drifts from CPython on %d inputs, e.g. %s <- %s: CPython %r, spec error mask %d"
-                             % (len(drift), sig_text(sigs[s]), call_text(calls[c]), cc, mask))
+    for lo, o in zip(offs, outs):
+        if o["drift"]:
+            s, c, cc, mask = o["drift"][0]
+            raise MachineryError("ArgBind.tla drifts from CPython on %d inputs, e.g. %s <- %s: CPython %r, spec error mask %d"
+                                 % (sum(len(x["drift"]) for x in outs), sig_text(sigs[s]), call_text(calls[lo + c]), cc, mask))
     codes: dict[str, int] = {}
-    for o in outs:
+    kinds: dict[str, int] = {}
+    table: dict[str, str] = {}
+    for lo, o in zip(offs, outs):
         for k, x in o["codes"].items():
             codes[k] = codes.get(k, 0) + x
-    table: dict[str, str | None] = {}
-    if sample_calls is None:
-        pass
-    for o in outs:
-        for s, c, kind, cc, md in o["bad"]:
-            failing.append(((sigs[s], calls[c]), kind, {"cpython": cc or "binds", "mypy": md}))
-            table[json.dumps([sigs[s], calls[c]], sort_keys=True)] = kind
-    kinds: dict[str, int] = {}
-    for o in outs:
-        for b in o["bad"]:
-            kinds[b[2]] = kinds.get(b[2], 0) + 1
+        for s, c, kind in o["bad"]:
+            x = (sigs[s], calls[lo + c])
+            failing.append((x, kind))
+            table[ab_ident(x)] = kind
+            kinds[kind] = kinds.get(kind, 0) + 1
     cov["argbind/" + tag] = {
         "signatures": len(sigs), "calls": len(calls), "pairs_replayed": n,
         "cpython_rejects": sum(o["cpy_rej"] for o in outs), "mypy_rejects": sum(o["my_rej"] for o in outs),
@@ -518,25 +646,20 @@ def ab_space(tag: str, np_: int, na: int, g: Any, failing: list[Any], cov: dict[
         "replay_wall_s": round(time.time() - t0, 1),
         "sample": next((o["sample"] for o in outs if o["sample"]), None),
     }
-    return {"np": np_, "na": na, "names": set(names), "table": table, "complete": sample_calls is None}
-
-
-def _ab_kind_task(xs: list[Any]) -> list[str | None]:
-    return ab_kind_batch(xs)
+    return {"np": np_, "na": na, "names": set(NAMES[:np_] + "z"), "table": table}
 
 
 def check_argbind(v: Verdict, tier: str, rnd: random.Random, cov: dict[str, Any]) -> dict[str, int]:
     spaces = [("3x2", 3, 2)] if tier == "quick" else [("4x3", 4, 3)]
-    states = transitions = 0
-    failing: list[Any] = []
-    tables = []
-    pairs = 0
     extra = os.environ.get("C12_ARGBIND_EXTRA")  # development: e.g. "3x4" = also enumerate that space completely
     if extra:
         spaces.append((extra, int(extra[0]), int(extra[2])))
+    states = transitions = pairs = 0
+    failing: list[Any] = []
+    tables = []
     for tag, np_, na in spaces:
-        r = tlc_checked("MC_ArgBind", "MC_ArgBind_%s.cfg" % tag, coverage=False)
-        g = tlc_checked("MC_ArgBind", "Gen_ArgBind_%s.cfg" % tag, workers=8, timeout=1800)
+        r = tlc_checked("MC_ArgBind", "MC_ArgBind_%s.cfg" % tag)
+        g = tlc_checked("MC_ArgBind", "Gen_ArgBind_%s.cfg" % tag)
         if g.never_fired():
             raise MachineryError("ArgBind actions never fired: %s" % g.never_fired())
         states += r.distinct
@@ -546,17 +669,13 @@ def check_argbind(v: Verdict, tier: str, rnd: random.Random, cov: dict[str, Any]
                                               invariants=["SigsAgree", "BindsIffWellDefined", "DefaultsRelax", "ArityMonotone"]))
         pairs += cov["argbind/" + tag]["pairs_replayed"]
     # seeded sample of the 4 x 4 space (TLC simulation picks the calls; every signature of <= 4 parameters)
-    nsim = int(os.environ.get("C12_ARGBIND_NSIM", "0")) or (150 if tier == "quick" else 3000)
-    g = tlc_checked("MC_ArgBind", "Gen_ArgBind_4x4sim.cfg", workers=4, simulate="num=%d" % (nsim * 2), depth=5,
-                    seed=rnd.randrange(1 << 30), coverage=False)
+    nsim = ab_nsim(tier)
+    g = tlc_checked("MC_ArgBind", "Gen_ArgBind_4x4sim.cfg")
     sampled: list[Any] = []
     ab_space("4x4-sampled", 4, 4, g, sampled, cov, sample_calls=nsim, rnd=rnd)
     pairs += cov["argbind/4x4-sampled"]["pairs_replayed"]
 
-    def ident(x: Any) -> str:
-        return json.dumps([x[0], canon_call(x[1])], sort_keys=True)
-
-    def in_table(x: Any) -> dict[str, str | None] | None:
+    def in_table(x: Any) -> dict[str, str] | None:
         sig, call = x
         used = {a["n"] for a in call if a["k"] == "K"} | {k for a in call if a["k"] == "D" for k in a["ks"]}
         for t in tables:
@@ -572,35 +691,33 @@ def check_argbind(v: Verdict, tier: str, rnd: random.Random, cov: dict[str, Any]
         for i, x in enumerate(xs):
             t = in_table(x)
             if t is not None:
-                res[i] = t.get(ident(x))
+                res[i] = t.get(ab_ident(x))   # completely enumerated space: not in the table = no failure
             else:
                 real.append(i)
-        _AB.update(names=NAMES + "z", maxtd=2)
         real_evals[0] += len(real)
-        step = 1500
+        step = max(200, min(1500, len(real) // NPROC + 1))
         parts = [[xs[i] for i in real[lo:lo + step]] for lo in range(0, len(real), step)]
-        flat = [k for part in pool_map(_ab_kind_task, parts) for k in part]
+        flat = [k for part in pool_map(ab_kind_task, parts) for k in part]
         for i, k in zip(real, flat):
             res[i] = k
         return res
 
-    mins = minimise([(x, kind) for x, kind, _ in failing + sampled], lambda x: ab_reductions(x[0], x[1]), kind_batch, ident)
+    mins = minimise(failing + sampled, ab_reductions, kind_batch, ab_ident)
     # reproduce every minimal failing input once more, alone, with unmodified mypy, before reporting it
-    _AB.update(names=NAMES + "z", maxtd=2)
     for m in sorted(mins, key=lambda m: ab_key(m["kind"], *m["input"])):
         sig, call = m["input"]
-        cpy, my, _ = ab_eval_pairs([sig], [call], [(0, 0)], pristine=True)
-        again = ab_kind(cpy[0][0], my[0][0], my[0][1])
+        cpy, my, _, _ = ab_eval_pairs([sig], [call], [(0, 0)], pristine=True)
+        again = ab_kind(cpy[0], my[0][0], my[0][1])
         if again != m["kind"]:
             raise MachineryError("failure not reproducible: %s, first %s then %s" % (ab_key(m["kind"], sig, call), m["kind"], again))
         key = ab_key(m["kind"], sig, call)
-        v.violation(key, {"part": "argbind", "module": ab_header(NAMES + "z", 2) + [sig_text(sig), call_text(call)],
-                          "kind": m["kind"], "cpython": cpy[0][0] or "binds", "mypy": my[0],
+        v.violation(key, {"part": "argbind", "module": ab_header() + [sig_text(sig), call_text(call)],
+                          "kind": m["kind"], "cpython": cpy[0] or "binds", "mypy": my[0],
                           "explains_failing_inputs": m["count"],
                           "example_non_minimal": [sig_text(m["example"][0]), call_text(m["example"][1])]},
                     "%s: `%s` called as `%s`: CPython %s, mypy %s (1-minimal; %d explored inputs reduce to it)"
                     % (m["kind"], sig_text(sig, "f", ann=False), call_text(call, "f", pretty=True),
-                       ("raises TypeError (%s)" % cpy[0][0]) if cpy[0][0] else "binds the arguments",
+                       ("raises TypeError (%s)" % cpy[0]) if cpy[0] else "binds the arguments",
                        {"ok": "reports nothing", "rej": "rejects the call", "crash": "stops with INTERNAL ERROR"}[my[0][0]],
                        m["count"]))
     cov["argbind/minimal_failing_inputs"] = len(mins)
@@ -609,28 +726,927 @@ def check_argbind(v: Verdict, tier: str, rnd: random.Random, cov: dict[str, Any]
             "failing": len(failing) + len(sampled)}
 
 
+# =========================================================================== C3
+def c3_text(bases: list[list[int]]) -> str:
+    return "; ".join("class C%d(%s)" % (i + 1, ", ".join("C%d" % b for b in bs)) for i, bs in enumerate(bases))
+
+
+def c3_eval(states: list[list[list[int]]], pristine: bool = False) -> tuple[list[Any], list[Any], int]:
+    """For every hierarchy: what CPython makes of its last class, and what mypy makes of it.
+    Result per state: CPython -> list of class numbers (its __mro__ without object) or "fail";
+    mypy -> ("mro", [...]) | ("fail", message) | ("crash", text)."""
+    names: dict[tuple[Any, ...], str] = {}
+    lines: list[str] = []
+    order: list[tuple[Any, ...]] = []
+    cls: dict[tuple[Any, ...], Any] = {}
+    number: dict[Any, int] = {}
+    cpy_of: dict[tuple[Any, ...], Any] = {}
+
+    def define(prefix: tuple[Any, ...]) -> None:
+        if prefix in names:
+            return
+        if len(prefix) > 1:
+            define(prefix[:-1])
+        nm = "K%d" % len(names)
+        names[prefix] = nm
+        bs = [names[prefix[:b]] for b in prefix[-1]]
+        lines.append("class %s(%s): pass" % (nm, ", ".join(bs)) if bs else "class %s: pass" % nm)
+        order.append(prefix)
+        try:
+            cls[prefix] = type(nm, tuple(cls[prefix[:b]] for b in prefix[-1]), {})   # really create the class
+            number[cls[prefix]] = len(prefix)
+            cpy_of[prefix] = [number[k] for k in cls[prefix].__mro__ if k is not object]
+        except TypeError as e:
+            if "consistent method resolution" not in str(e):
+                raise MachineryError("unexpected TypeError creating a class: %s" % e)
+            cpy_of[prefix] = "fail"
+        except KeyError:
+            raise MachineryError("hierarchy uses a class whose creation failed: %r" % (prefix,))
+
+    keys = [tuple(tuple(b) for b in st) for st in states]
+    for k in keys:
+        define(k)
+    my, builds = c3_mypy(lines, order, names, pristine)
+    return [cpy_of[k] for k in keys], [my[k] for k in keys], builds
+
+
+def c3_mypy(lines: list[str], order: list[Any], names: dict[Any, str], pristine: bool) -> tuple[dict[Any, Any], int]:
+    r = run_mypy("\n".join(lines) + "\n", keep_result=True)
+    if r.crash_line is not None:
+        if len(lines) == 1 or pristine:
+            return {k: ("crash", r.crash) for k in order}, 1
+        raise MachineryError("mypy crashed on a generated class hierarchy: %s at line %d: %s"
+                             % (r.crash, r.crash_line, lines[r.crash_line - 1]))
+    by_name = {v: k for k, v in names.items()}
+    table = r.result.files["__main__"].names
+    out: dict[Any, Any] = {}
+    for i, k in enumerate(order):
+        errs = r.errors.get(i + 1, [])
+        mro_err = [t for t, _ in errs if "Cannot determine consistent method resolution order" in t]
+        other = [t for t, _ in errs if "Cannot determine consistent method resolution order" not in t]
+        if other:
+            raise MachineryError("unexpected diagnostic on a generated class: %r" % other)
+        if mro_err:
+            out[k] = ("fail", mro_err[0])
+        else:
+            info = table[names[k]].node
+            out[k] = ("mro", [len(by_name[t.name]) for t in info.mro if t.fullname != "builtins.object"])
+    return out, 1
+
+
+def c3_kind(cp: Any, my: Any) -> str | None:
+    if my[0] == "crash":
+        return "crash"
+    if cp == "fail":
+        return None if my[0] == "fail" else "false_accept"
+    if my[0] == "fail":
+        return "false_reject"
+    return None if my[1] == cp else "wrong_mro"
+
+
+def c3_chunk(task: list[Any]) -> dict[str, Any]:
+    states = [t[0] for t in task]
+    cp, my, builds = c3_eval(states)
+    out: dict[str, Any] = {"n": len(states), "builds": builds, "drift": [], "bad": [], "fails": 0, "multi": 0, "sample": None}
+    for (st, spec), c, m in zip(task, cp, my):
+        specv: Any = "fail" if spec == [0] else spec
+        if specv != c:
+            out["drift"].append((st, spec, c))
+        if c == "fail":
+            out["fails"] += 1
+        if any(len(b) > 1 for b in st):
+            out["multi"] += 1
+        k = c3_kind(c, m)
+        if k:
+            out["bad"].append((st, k))
+        if out["sample"] is None and c != "fail" and len(c) >= 4 and len(st[-1]) >= 2:
+            out["sample"] = {"hierarchy": c3_text(st), "spec": spec, "cpython": c, "mypy": m}
+    return out
+
+
+def c3_reductions(st: list[list[int]]) -> list[list[Any]]:
+    g0 = []
+    n = len(st)
+    for j in range(1, n):          # remove class j (not the last one): drop it from every base list, renumber
+        new = []
+        for i, bs in enumerate(st, 1):
+            if i == j:
+                continue
+            new.append([b - 1 if b > j else b for b in bs if b != j])
+        g0.append(new)
+    g1 = []
+    for i, bs in enumerate(st):
+        for k in range(len(bs)):
+            g1.append(st[:i] + [bs[:k] + bs[k + 1:]] + st[i + 1:])
+    return [g0, g1]
+
+
+def c3_kind_task(xs: list[Any]) -> list[str | None]:
+    res: list[str | None] = []
+    for st in xs:   # one module per candidate: an earlier class of a candidate may itself be inconsistent
+        try:
+            cp, my, _ = c3_eval([st], pristine=True)
+            res.append(c3_kind(cp[0], my[0]))
+        except MachineryError:
+            res.append(None)
+    return res
+
+
+def check_c3(v: Verdict, tier: str, rnd: random.Random, cov: dict[str, Any]) -> dict[str, int]:
+    sany(os.path.join(SPEC, "MC_C3.tla"))
+    n = 5
+    r = tlc_checked("MC_C3", "MC_C3_%d.cfg" % n)
+    if r.never_fired():
+        raise MachineryError("C3 actions never fired: %s" % r.never_fired())
+    g = tlc_checked("MC_C3", "Gen_C3_%d.cfg" % n)
+    rows = g.json_lines("H")
+    states, transitions = r.distinct, r.generated
+    tl: dict[str, Any] = {"N=%d" % n: dict(coverage_summary(r), states=r.distinct, transitions=r.generated,
+                                          invariants=["WellFormed", "LocalPrecedence", "Monotone", "ChainsLinearise"])}
+    exhaustive_n = len(rows)
+    if len(rows) != r.distinct - 1:
+        raise MachineryError("C3: %d hierarchies emitted for %d states" % (len(rows), r.distinct))
+    if tier == "thorough":
+        r6 = tlc_checked("MC_C3", "MC_C3_6.cfg")
+        states += r6.distinct
+        transitions += r6.generated
+        tl["N=6"] = dict(coverage_summary(r6), states=r6.distinct, transitions=r6.generated)
+        g6 = tlc_checked("MC_C3", "Gen_C3_6sim.cfg")
+        seen = {json.dumps(x["b"]) for x in rows}
+        for x in g6.json_lines("H"):
+            k = json.dumps(x["b"])
+            if k not in seen:
+                seen.add(k)
+                rows.append(x)
+    rows.sort(key=lambda x: json.dumps(x["b"]))
+    per = max(50, min(600, len(rows) // (NPROC * 2) + 1))
+    t0 = time.time()
+    outs = pool_map(c3_chunk, [[(x["b"], x["m"]) for x in rows[lo:lo + per]] for lo in range(0, len(rows), per)])
+    drift = [d for o in outs for d in o["drift"]]
+    if drift:
+        raise MachineryError("C3.tla drifts from CPython on %d hierarchies, e.g. %s: spec %r, CPython %r"
+                             % (len(drift), c3_text(drift[0][0]), drift[0][1], drift[0][2]))
+    bad = [b for o in outs for b in o["bad"]]
+
+    def kind_batch(xs: list[Any]) -> list[str | None]:
+        step = max(20, len(xs) // NPROC + 1)
+        return [k for part in pool_map(c3_kind_task, [xs[lo:lo + step] for lo in range(0, len(xs), step)]) for k in part]
+
+    mins = minimise([(st, k) for st, k in bad], c3_reductions, kind_batch, lambda st: json.dumps(st))
+    for m in sorted(mins, key=lambda m: json.dumps(m["input"])):
+        st = m["input"]
+        cp, my, _ = c3_eval([st], pristine=True)
+        if c3_kind(cp[0], my[0]) != m["kind"]:
+            raise MachineryError("C3 failure not reproducible: %s" % c3_text(st))
+        v.violation("c3:%s:%s" % (m["kind"], c3_text(st)),
+                    {"part": "c3", "hierarchy": c3_text(st), "cpython": cp[0], "mypy": my[0], "explains": m["count"]},
+                    "%s for `%s`: CPython %s, mypy %s" % (m["kind"], c3_text(st),
+                                                         "cannot create the class" if cp[0] == "fail" else "__mro__ = %s" % cp[0], my[0]))
+    cov["c3"] = {"hierarchies_replayed": sum(o["n"] for o in outs), "exhaustive_up_to_N=%d" % n: exhaustive_n,
+                 "sampled_N=6": len(rows) - exhaustive_n, "inconsistent_at_run_time": sum(o["fails"] for o in outs),
+                 "with_multiple_inheritance": sum(o["multi"] for o in outs), "mypy_builds": sum(o["builds"] for o in outs),
+                 "disagreements": len(bad), "replay_wall_s": round(time.time() - t0, 1), "tlc": tl,
+                 "sample": next((o["sample"] for o in outs if o["sample"]), None)}
+    return {"states": states, "transitions": transitions, "replayed": sum(o["n"] for o in outs), "failing": len(bad),
+            "nontrivial": sum(o["multi"] for o in outs)}
+
+
+# =========================================================================== Reach
+R_NONE = 99
+_MIRROR = {"<": ">", ">": "<", "<=": ">=", ">=": "<=", "==": "==", "!=": "!="}
+
+
+def r_atom_text(a: dict[str, Any]) -> str:
+    if a["t"] == "u":
+        return "unk"
+    if a["t"] == "p":
+        lit = repr("".join(a["lit"]))
+        if a["f"] == "sw":
+            return "sys.platform.startswith(%s)" % lit
+        op = "==" if a["f"] == "eq" else "!="
+        return "%s %s sys.platform" % (lit, op) if a["rev"] else "sys.platform %s %s" % (op, lit)
+    if a["f"] == "idx":
+        lhs, lit = "sys.version_info[%d]" % a["i"], str(a["lit"][0])
+    else:
+        if a["f"] == "whole":
+            lhs = "sys.version_info"
+        else:
+            lhs = "sys.version_info[%s:%s%s]" % ("" if a["lo"] == R_NONE else a["lo"], "" if a["hi"] == R_NONE else a["hi"],
+                                                 ":1" if a["st"] else "")
+        lit = "(%s,)" % a["lit"][0] if len(a["lit"]) == 1 else "(%s)" % ", ".join(map(str, a["lit"]))
+    return "%s %s %s" % (lit, a["op"], lhs) if a["rev"] else "%s %s %s" % (lhs, a["op"], lit)
+
+
+def r_text(c: dict[str, Any]) -> str:
+    if c["k"] == "atom":
+        t = r_atom_text(c["a"])
+        return "not " + t if c["neg"] else t
+    t = "(%s) %s (%s)" % (r_atom_text(c["a"]), c["k"], r_atom_text(c["b"]))
+    return "not (%s)" % t if c["neg"] else t
+
+
+def r_runtime(code: Any, minor: int, micro: int, plat: str) -> str:
+    """Truth value at run time: eval with a fake sys, in both worlds of the unknown name."""
+    import collections
+    import types
+    VI = collections.namedtuple("version_info", "major minor micro releaselevel serial")
+    fake = types.SimpleNamespace(version_info=VI(3, minor, micro, "final", 0), platform=plat)
+    vals = set()
+    for unk in (True, False):
+        try:
+            vals.add("T" if eval(code, {"sys": fake, "unk": unk}) else "F")
+        except TypeError:
+            vals.add("E")
+    return vals.pop() if len(vals) == 1 else "U"
+
+
+def r_mypy(texts: list[str], minor: int, plat: str) -> list[str]:
+    """mypy's static value of every condition: T / F / ? (not decided), from Block.is_unreachable."""
+    from mypy.nodes import IfStmt
+    lines = ["import sys", "unk = bool()"]
+    for t in texts:
+        lines += ["if %s: pass" % t, "else: pass"]
+    r = run_mypy("\n".join(lines) + "\n", pyver=(3, minor), platform=plat, keep_result=True)
+    if r.crash_line is not None:
+        raise MachineryError("mypy crashed on a generated condition: %s: %s" % (r.crash, lines[r.crash_line - 1]))
+    if r.errors:
+        raise MachineryError("unexpected diagnostics in the condition module: %r" % list(r.errors.items())[:3])
+    ifs = [d for d in r.result.files["__main__"].defs if isinstance(d, IfStmt)]
+    if len(ifs) != len(texts):
+        raise MachineryError("condition module: %d if statements for %d conditions" % (len(ifs), len(texts)))
+    out = []
+    for d in ifs:
+        f, t = d.body[0].is_unreachable, bool(d.else_body and d.else_body.is_unreachable)
+        if f and t:
+            raise MachineryError("both branches unreachable")
+        out.append("F" if f else "T" if t else "?")
+    return out
+
+
+def r_chunk(task: tuple[int, str, list[Any]]) -> dict[str, Any]:
+    minor, plat, items = task            # items: (cond id, text, [(micro, spec value), ...])
+    my = r_mypy([t for _, t, _ in items], minor, plat)
+    out: dict[str, Any] = {"n": 0, "decided": 0, "drift": [], "bad": [], "conds": len(items), "sample": None}
+    for (cid, text, specs), m in zip(items, my):
+        code = compile(text, "<cond>", "eval")
+        for micro, sv in specs:
+            rt = r_runtime(code, minor, micro, plat)
+            out["n"] += 1
+            if rt != sv:
+                out["drift"].append((cid, text, minor, micro, plat, sv, rt))
+            if m != "?":
+                out["decided"] += 1
+                if m != rt:
+                    out["bad"].append((cid, minor, micro, plat, m, rt))
+            if out["sample"] is None and m != "?" and "and" in text and "version" in text:
+                out["sample"] = {"condition": text, "target": "3.%d.%d %s" % (minor, micro, plat), "spec": sv, "cpython": rt, "mypy": m}
+    return out
+
+
+def r_minors(c: dict[str, Any]) -> list[int]:
+    res = []
+    for a in (c["a"], c["b"]):
+        if a["t"] != "v":
+            continue
+        if a["f"] == "idx":
+            if a["i"] == 1:
+                res.append(a["lit"][0])
+        elif a["f"] == "slice" and a["lo"] == 1:
+            res.append(a["lit"][0])
+        elif len(a["lit"]) >= 2:
+            res.append(a["lit"][1])
+    return res
+
+
+def r_reductions(x: tuple[Any, int, int, str]) -> list[list[Any]]:
+    c, minor, micro, plat = x
+    nil = dict(t="nil", f="", i=0, lo=R_NONE, hi=R_NONE, st=False, op="", rev=False, lit=[])
+    g0: list[Any] = []
+    if c["k"] != "atom":
+        g0.append(dict(k="atom", a=c["a"], b=nil, neg=False))
+        g0.append(dict(k="atom", a=c["b"], b=nil, neg=False))
+    if c["neg"]:
+        g0.append(dict(c, neg=False))
+    g1: list[Any] = []
+    for which in ("a", "b"):
+        a = c[which]
+        if a["t"] == "v" and a["rev"]:
+            g1.append(dict(c, **{which: dict(a, rev=False, op=_MIRROR[a["op"]])}))
+        if a["t"] == "p" and a["rev"]:
+            g1.append(dict(c, **{which: dict(a, rev=False)}))
+        if a["t"] == "v" and a["f"] == "slice" and a["st"]:
+            g1.append(dict(c, **{which: dict(a, st=False)}))
+        if a["t"] == "v" and a["f"] == "slice" and a["lo"] in (R_NONE, 0) and a["hi"] == R_NONE and not a["st"]:
+            g1.append(dict(c, **{which: dict(a, f="whole", lo=R_NONE)}))     # t[:] and t[0:] are t
+    return [[(y, minor, micro, plat) for y in g] for g in (g0, g1)]
+
+
+def r_eval_inputs(xs: list[Any]) -> list[str | None]:
+    """Real evaluation of (condition, target) inputs; 'mismatch' when mypy decides another value."""
+    res: list[str | None] = [None] * len(xs)
+    groups: dict[tuple[int, str], list[int]] = {}
+    for i, (c, minor, micro, plat) in enumerate(xs):
+        groups.setdefault((minor, plat), []).append(i)
+    for (minor, plat), idx in groups.items():
+        my = r_mypy([r_text(xs[i][0]) for i in idx], minor, plat)
+        for i, m in zip(idx, my):
+            rt = r_runtime(compile(r_text(xs[i][0]), "<cond>", "eval"), minor, xs[i][2], plat)
+            res[i] = "mismatch" if (m != "?" and m != rt) else None
+    return res
+
+
+def r_class(c: dict[str, Any], minor: int, micro: int) -> str:
+    """The condition with its literal replaced by how it relates to the target."""
+    def atom(a: dict[str, Any]) -> str:
+        if a["t"] != "v":
+            return r_atom_text(a)
+        vi = [3, minor, micro]
+        if a["f"] == "idx":
+            ref = vi[a["i"]:a["i"] + 1]
+            what = "int"
+        else:
+            lo = 0 if a["f"] == "whole" or a["lo"] == R_NONE else a["lo"]
+            ref = vi[lo:lo + len(a["lit"])]
+            what = "%d-tuple" % len(a["lit"])
+        rel = "=" if a["lit"] == ref else "<" if a["lit"] < ref else ">"
+        lit = "<%s %s target's>" % (what, rel)
+        full = r_atom_text(dict(a, lit=[7] * len(a["lit"])))
+        lit_txt = "7" if a["f"] == "idx" else ("(7,)" if len(a["lit"]) == 1 else "(%s)" % ", ".join(["7"] * len(a["lit"])))
+        return full.replace(lit_txt, lit)
+    if c["k"] == "atom":
+        t = atom(c["a"])
+        return "not " + t if c["neg"] else t
+    t = "(%s) %s (%s)" % (atom(c["a"]), c["k"], atom(c["b"]))
+    return "not (%s)" % t if c["neg"] else t
+
+
+def check_reach(v: Verdict, tier: str, rnd: random.Random, cov: dict[str, Any]) -> dict[str, int]:
+    sany(os.path.join(SPEC, "MC_Reach.tla"))
+    r = tlc_checked("MC_Reach", "MC_Reach.cfg")
+    g = tlc_checked("MC_Reach", "Gen_Reach.cfg")
+    if g.never_fired():
+        raise MachineryError("Reach actions never fired: %s" % g.never_fired())
+    tg = g.json_lines("TARGETS")
+    rows = g.json_lines("COND")
+    if len(tg) != 1 or len(rows) < 1000:
+        raise MachineryError("Reach: emission incomplete (%d target rows, %d conditions)" % (len(tg), len(rows)))
+    targets = {k: [(t["minor"], t["micro"], "".join(t["plat"])) for t in tg[0][k]] for k in ("v", "p", "m")}
+    per_build: dict[tuple[int, str], list[Any]] = {}
+    conds: list[Any] = []
+    for row in rows:
+        c = row["c"]
+        uses_p = c["a"]["t"] == "p" or c["b"]["t"] == "p"
+        tl = targets["m"] if c["k"] != "atom" else targets["p"] if uses_p else targets["v"]
+        if len(tl) != len(row["v"]):
+            raise MachineryError("Reach: vector length")
+        cid = len(conds)
+        conds.append(c)
+        text = r_text(c)
+        lits = r_minors(c)
+        by: dict[tuple[int, str], list[Any]] = {}
+        for (minor, micro, plat), sv in zip(tl, row["v"]):
+            if tier == "quick":
+                # quick: literal minors next to the target's; negation only of the plain forms;
+                # and/or combinations on the 3.12 targets only (thorough: everything TLC emitted)
+                if c["k"] == "atom" and lits and not any(abs(m - minor) <= 1 for m in lits):
+                    continue
+                if c["k"] == "atom" and c["neg"] and (c["a"]["rev"] or c["a"]["st"]):
+                    continue
+                if c["k"] != "atom" and minor != 12:
+                    continue
+            by.setdefault((minor, plat), []).append((micro, sv))
+        for key, specs in by.items():
+            per_build.setdefault(key, []).append((cid, text, specs))
+    tasks = []
+    for (minor, plat), items in sorted(per_build.items()):
+        for lo in range(0, len(items), 4000):
+            tasks.append((minor, plat, items[lo:lo + 4000]))
+    t0 = time.time()
+    outs = pool_map(r_chunk, tasks)
+    drift = [d for o in outs for d in o["drift"]]
+    if drift:
+        raise MachineryError("Reach.tla drifts from CPython on %d (condition, target) pairs, e.g. %r" % (len(drift), drift[0]))
+    bad = [b for o in outs for b in o["bad"]]
+    # one representative per (condition class, mypy value, run-time value); minimise those
+    reps: dict[str, Any] = {}
+    counts: dict[str, int] = {}
+    for cid, minor, micro, plat, m, rt in bad:
+        k = "%s|%s|%s" % (r_class(conds[cid], minor, micro), m, rt)
+        if k not in reps or (minor == 12 and reps[k][1] != 12):
+            reps[k] = (conds[cid], minor, micro, plat)     # representative: the 3.12 target when there is one
+        counts[k] = counts.get(k, 0) + 1
+    mins = minimise([(x, "mismatch") for x in reps.values()], r_reductions, r_eval_inputs,
+                    lambda x: json.dumps([x[0], x[1], x[2], x[3]], sort_keys=True))
+    seen_keys: dict[str, Any] = {}
+    for m in mins:
+        c, minor, micro, plat = m["input"]
+        my = r_mypy([r_text(c)], minor, plat)[0]
+        rt = r_runtime(compile(r_text(c), "<cond>", "eval"), minor, micro, plat)
+        if my == "?" or my == rt:
+            raise MachineryError("Reach failure not reproducible: %s on 3.%d.%d %s" % (r_text(c), minor, micro, plat))
+        key = "reach:%s:mypy=%s,runtime=%s" % (r_class(c, minor, micro), my, rt)
+        if key in seen_keys:
+            continue
+        seen_keys[key] = 1
+        v.violation(key, {"part": "reach", "condition": r_text(c), "python_version": "3.%d" % minor, "platform": plat,
+                          "runtime_version_info": [3, minor, micro, "final", 0], "mypy_static_value": my, "runtime_value": rt},
+                    "`%s` with --python-version 3.%d: mypy takes it as always %s, at run time on 3.%d.%d it is %s"
+                    % (r_text(c), minor, {"T": "true", "F": "false"}[my], minor, micro,
+                       {"T": "True", "F": "False", "E": "a TypeError", "U": "not constant"}[rt]))
+    cov["reach"] = {"conditions": len(conds), "condition_target_pairs_replayed": sum(o["n"] for o in outs),
+                    "pairs_mypy_decides": sum(o["decided"] for o in outs), "mypy_builds": len(tasks),
+                    "conditions_given_to_mypy": sum(o["conds"] for o in outs),
+                    "disagreeing_pairs": len(bad), "disagreement_classes": len(reps), "minimal_classes": len(seen_keys),
+                    "replay_wall_s": round(time.time() - t0, 1),
+                    "tlc": dict(coverage_summary(g), states=r.distinct, transitions=r.generated,
+                                invariants=["NegFlips", "ReverseLaw", "PrefixIgnoresMicro", "WholeNeverEqualsShort"]),
+                    "sample": next((o["sample"] for o in outs if o["sample"]), None)}
+    return {"states": r.distinct, "transitions": r.generated, "replayed": sum(o["n"] for o in outs), "failing": len(bad),
+            "nontrivial": sum(o["decided"] for o in outs)}
+
+
+# =========================================================================== Fold
+F_TOK: dict[str, str] = {
+    "i0": "0", "i1": "1", "i2": "2", "i3": "3", "i7": "7", "i64": "64", "im1": "(-1)", "im2": "(-2)", "im7": "(-7)",
+    "b31m": str(2**31 - 1), "b31": str(2**31), "b31p": str(2**31 + 1), "nb31": "(-%d)" % 2**31, "nb31m": "(-%d)" % (2**31 + 1),
+    "b32m": str(2**32 - 1), "b32": str(2**32), "b32p": str(2**32 + 1),
+    "b63m": str(2**63 - 1), "b63": str(2**63), "b63p": str(2**63 + 1), "nb63": "(-%d)" % 2**63, "nb63m": "(-%d)" % (2**63 + 1),
+    "b64m": str(2**64 - 1), "b64": str(2**64), "b64p": str(2**64 + 1),
+    "h1023": str(2**1023), "h1024": str(2**1024), "nh1024": "(-%d)" % 2**1024,
+    "bT": "True", "bF": "False",
+    "f00": "0.0", "fm00": "(-0.0)", "f15": "1.5", "fm15": "(-1.5)", "f05": "0.5", "f20": "2.0", "fbig": "1e308", "finf": "1e309",
+    "s0": "''", "sab": "'ab'", "c1j": "1j", "c0j": "0j", "y0": "b''", "yab": "b'ab'",
+    "nFI": "FI", "nFF": "FF", "nFS": "FS", "nFB": "FB", "nNV": "NV", "nFN": "FN",
+}
+F_PRETTY = {"b31m": "(2**31-1)", "b31": "2**31", "b31p": "(2**31+1)", "nb31": "(-2**31)", "nb31m": "(-2**31-1)",
+            "b32m": "(2**32-1)", "b32": "2**32", "b32p": "(2**32+1)", "b63m": "(2**63-1)", "b63": "2**63", "b63p": "(2**63+1)",
+            "nb63": "(-2**63)", "nb63m": "(-2**63-1)", "b64m": "(2**64-1)", "b64": "2**64", "b64p": "(2**64+1)",
+            "h1023": "2**1023", "h1024": "2**1024", "nh1024": "(-2**1024)"}
+F_HEADER = ["from typing import Final", "FI: Final = 3", "FF: Final = 1.5", "FS: Final = 'ab'", "FB: Final = True",
+            "NV = 3", "FN: Final = -2"]
+F_NS = {"FI": 3, "FF": 1.5, "FS": "ab", "FB": True, "NV": 3, "FN": -2}
+# simpler-first order of the operand tokens of one run-time type (used to minimise failing expressions)
+F_SIMPLER = {
+    "int": ["i1", "i0", "i2", "i3", "i7", "i64", "im1", "im2", "im7", "b31m", "b31", "b31p", "nb31", "nb31m", "b32m", "b32", "b32p",
+            "b63m", "b63", "b63p", "nb63", "nb63m", "b64m", "b64", "b64p", "h1023", "h1024", "nh1024", "nFI", "nFN", "nNV"],
+    "bool": ["bT", "bF", "nFB"],
+    "float": ["f15", "f05", "f20", "f00", "fm00", "fm15", "fbig", "finf", "nFF"],
+    "str": ["sab", "s0", "nFS"], "complex": ["c1j", "c0j"], "bytes": ["yab", "y0"],
+}
+F_TYPE_OF = {t: ty for ty, ts in F_SIMPLER.items() for t in ts}
+F_MAXBITS = 8192
+
+
+def f_text(e: dict[str, Any], top: bool = True, pretty: bool = False) -> str:
+    """Source text of an expression (`pretty`: the big literals written as powers of two, for keys)."""
+    if e["k"] == "leaf":
+        return F_PRETTY.get(e["t"], F_TOK[e["t"]]) if pretty else F_TOK[e["t"]]
+    if e["k"] == "un":
+        t = "%s%s" % (e["op"], f_text(e["x"], False, pretty))
+    else:
+        t = "%s %s %s" % (f_text(e["l"], False, pretty), e["op"], f_text(e["r"], False, pretty))
+    return t if top else "(%s)" % t
+
+
+class _Excluded(Exception):
+    pass
+
+
+def f_guarded(e: dict[str, Any]) -> Any:
+    """Evaluate bottom-up only to find computations that would be huge; raises _Excluded for those."""
+    import operator
+    if e["k"] == "leaf":
+        return eval(F_TOK[e["t"]], dict(F_NS))
+    if e["k"] == "un":
+        x = f_guarded(e["x"])
+        return {"-": operator.neg, "+": operator.pos, "~": operator.invert}[e["op"]](x)
+    a, b = f_guarded(e["l"]), f_guarded(e["r"])
+    op = e["op"]
+    ia, ib = isinstance(a, int), isinstance(b, int)
+    if op == "**" and ia and ib and b >= 0 and abs(a) >= 2 and a.bit_length() * b > F_MAXBITS:
+        raise _Excluded
+    if op == "<<" and ia and ib and a != 0 and b > F_MAXBITS:
+        raise _Excluded
+    if op == "*":
+        for s_, n in ((a, b), (b, a)):
+            if isinstance(s_, (str, bytes)) and isinstance(n, int) and len(s_) and 10000 < n and len(s_) * n < 2**62:
+                raise _Excluded
+    fn = {"+": operator.add, "-": operator.sub, "*": operator.mul, "/": operator.truediv, "//": operator.floordiv,
+          "%": operator.mod, "&": operator.and_, "|": operator.or_, "^": operator.xor, "<<": operator.lshift,
+          ">>": operator.rshift, "**": operator.pow}[op]
+    r = fn(a, b)
+    if isinstance(r, int) and r.bit_length() > F_MAXBITS:
+        raise _Excluded
+    return r
+
+
+def f_show(x: Any) -> tuple[str, str, str]:
+    return ("val", type(x).__name__, repr(x))
+
+
+def f_cpython(e: dict[str, Any]) -> tuple[str, ...]:
+    import warnings
+    try:
+        with warnings.catch_warnings():
+            warnings.simplefilter("ignore")
+            f_guarded(e)
+    except _Excluded:
+        return ("excluded",)
+    except Exception:  # noqa: BLE001
+        pass
+    try:
+        with warnings.catch_warnings():
+            warnings.simplefilter("ignore")
+            return f_show(eval(f_text(e), dict(F_NS)))       # the oracle: CPython evaluates the source text
+    except Exception as ex:  # noqa: BLE001
+        return ("raise", type(ex).__name__)
+
+
+@contextlib.contextmanager
+def catch_fold_crashes(store: dict[int, str]) -> Any:
+    """Discovery aid, like catch_call_crashes: an exception escaping mypy's constant_fold_expr in
+    semantic analysis is recorded for the line, and analysis goes on."""
+    from mypy import semanal
+    orig = semanal.constant_fold_expr
+
+    def wrapped(expr: Any, cur_mod_id: str) -> Any:
+        try:
+            return orig(expr, cur_mod_id)
+        except Exception as exc:  # noqa: BLE001
+            store.setdefault(expr.line, "%s: %s" % (type(exc).__name__, exc))
+            return None
+
+    semanal.constant_fold_expr = wrapped  # type: ignore[assignment]
+    try:
+        yield
+    finally:
+        semanal.constant_fold_expr = orig  # type: ignore[assignment]
+
+
+def f_build(lines: list[str]) -> tuple[Any, dict[int, str]]:
+    """Unmodified build; on INTERNAL ERROR drop that line and build again.  Returns (result, crashes)."""
+    crashes: dict[int, str] = {}
+    live = list(lines)
+    while True:
+        r = run_mypy("\n".join(F_HEADER + live) + "\n", keep_result=True)
+        if r.crash_line is None:
+            return r, crashes
+        k = r.crash_line - len(F_HEADER) - 1
+        if k < 0:
+            raise MachineryError("mypy crashed in the folding header: " + r.crash)
+        crashes[k] = r.crash
+        live[k] = "pass"
+
+
+def f_mypy(exprs: list[Any], plain: bool, pristine: bool = False) -> tuple[list[dict[str, Any]], int]:
+    """What mypy's semantic analysis (Final[object] = e, and when `plain` also Final = e) and mypyc's
+    constant_fold_expr make of every expression: engine -> ("val", type, repr) | ("none",) | ("crash", text)."""
+    from mypy.nodes import AssignmentStmt
+    from mypyc.irbuild.constant_fold import constant_fold_expr as mypyc_fold
+    lines = []
+    for i, e in enumerate(exprs):
+        lines.append("X%d: Final[object] = %s" % (i, f_text(e)))
+        if plain:
+            lines.append("P%d: Final = %s" % (i, f_text(e)))
+    builds = 1
+    found: dict[int, str] = {}
+    with catch_fold_crashes(found):
+        r = run_mypy("\n".join(F_HEADER + lines) + "\n", keep_result=True)
+    if r.crash_line is not None:
+        found = {-1: "crash outside constant_fold_expr"}
+        rv = {}
+    else:
+        rv = {d.lvalues[0].name: d.rvalue for d in r.result.files["__main__"].defs
+              if isinstance(d, AssignmentStmt) and hasattr(d.lvalues[0], "name")}
+    crashes: dict[int, str] = {}
+    if pristine or found:
+        # authoritative: unmodified mypy, the lines that crashed in the discovery build left out
+        base = len(F_HEADER) + 1
+        live = list(lines) if pristine else ["pass" if (base + k) in found else ln for k, ln in enumerate(lines)]
+        r, crashes = f_build(live)
+        builds += 1 + len(crashes)
+        for ln, txt in found.items():
+            if ln >= base:
+                crashes.setdefault(ln - base, txt)
+        if pristine and set(crashes) != {ln - base for ln in found if ln >= base}:
+            raise MachineryError("discovery build and unmodified build disagree on the crashing lines")
+    names = r.result.files["__main__"].names
+    for d in r.result.files["__main__"].defs:
+        if isinstance(d, AssignmentStmt) and hasattr(d.lvalues[0], "name"):
+            rv.setdefault(d.lvalues[0].name, d.rvalue)
+    out = []
+    stride = 2 if plain else 1
+    for i in range(len(exprs)):
+        res: dict[str, Any] = {}
+        for eng, nm, ln in (("mypy", "X%d" % i, i * stride), ("mypy_plain_final", "P%d" % i, i * stride + 1)):
+            if eng == "mypy_plain_final" and not plain:
+                continue
+            if ln in crashes:
+                res[eng] = ("crash", crashes[ln])
+            else:
+                val = names[nm].node.final_value
+                res[eng] = ("none",) if val is None else f_show(val)
+        if "X%d" % i in rv:
+            try:
+                val = mypyc_fold(None, rv["X%d" % i])     # mypyc's folding function, called directly on the analysed AST
+                res["mypyc"] = ("none",) if val is None else f_show(val)
+            except Exception as exc:  # noqa: BLE001
+                res["mypyc"] = ("crash", "%s: %s" % (type(exc).__name__, exc))
+        out.append(res)
+    return out, builds
+
+
+def f_kind(cp: tuple[str, ...], m: tuple[str, ...]) -> str | None:
+    if cp[0] == "excluded":
+        return None
+    if m[0] == "crash":
+        return "crash:" + m[1].split(":")[0]
+    if m[0] == "none":
+        return None
+    if cp[0] == "raise":
+        return "folded_but_raises:" + cp[1]
+    return None if m == cp else "wrong_value"
+
+
+def f_chunk(task: tuple[list[Any], bool]) -> dict[str, Any]:
+    items, plain = task                     # items: (expression, spec value record)
+    out: dict[str, Any] = {"n": len(items), "builds": 0, "drift": [], "bad": [], "excluded": [], "folded": 0,
+                           "folded_mypyc": 0, "raises": 0, "spec_values": 0, "sample": None}
+    cps = [f_cpython(e) for e, _ in items]
+    # the size guard applies to mypy too (it would evaluate the same huge value while folding)
+    out["excluded"] = [f_text(e) for (e, _), cp in zip(items, cps) if cp[0] == "excluded"]
+    keep = [i for i, cp in enumerate(cps) if cp[0] != "excluded"]
+    my, out["builds"] = f_mypy([items[i][0] for i in keep], plain)
+    for i, res in zip(keep, my):
+        (e, sv), cp = items[i], cps[i]
+        if cp[0] == "raise":
+            out["raises"] += 1
+        if sv["t"] in ("int", "bool"):
+            out["spec_values"] += 1
+            want = ("val", sv["t"], str(bool(sv["v"])) if sv["t"] == "bool" else str(sv["v"]))
+            if cp != want:
+                out["drift"].append((f_text(e), sv, cp))
+        elif sv["t"] == "raise" and cp[0] != "raise":
+            out["drift"].append((f_text(e), sv, cp))
+        if res["mypy"][0] == "val":
+            out["folded"] += 1
+        if res.get("mypyc", ("none",))[0] == "val":
+            out["folded_mypyc"] += 1
+        kinds: dict[str, list[str]] = {}
+        for eng, m in res.items():
+            k = f_kind(cp, m)
+            if k:
+                kinds.setdefault(k, []).append(eng)
+        for k, engs in kinds.items():
+            out["bad"].append((e, k, engs))
+        if out["sample"] is None and e["k"] == "bin" and res["mypy"][0] == "val" and sv["t"] == "int" and e["op"] in ("//", "%"):
+            out["sample"] = {"expression": f_text(e), "spec": sv, "cpython": cp, "mypy": res["mypy"], "mypyc": res.get("mypyc")}
+    return out
+
+
+F_BINORDER = ["+", "-", "*", "/", "//", "%", "**", "&", "|", "^", "<<", ">>"]
+F_UNORDER = ["+", "-", "~"]
+_F_BYVALUE: dict[tuple[str, str], str] = {}
+
+
+def f_token_for(value: Any) -> str | None:
+    """The simplest operand token whose run-time value is exactly `value` (same type)."""
+    if not _F_BYVALUE:
+        for ty in F_SIMPLER:
+            for t in F_SIMPLER[ty]:
+                val = eval(F_TOK[t], dict(F_NS))
+                _F_BYVALUE.setdefault((type(val).__name__, repr(val)), t)
+    return _F_BYVALUE.get((type(value).__name__, repr(value)))
+
+
+def f_reductions(e: dict[str, Any]) -> list[list[Any]]:
+    """One-step simplifications: 0 a direct subexpression instead of the whole;  1 a proper subexpression
+    replaced by the operand token that has its run-time value;  2 an operand token replaced by a simpler
+    one of the same run-time type;  3 an operator replaced by an earlier one of +,-,*,/,//,%,**,&,|,^,<<,>>."""
+    g0: list[Any] = []
+    if e["k"] == "un":
+        g0.append(e["x"])
+    elif e["k"] == "bin":
+        g0 += [e["l"], e["r"]]
+
+    def rewrite(x: dict[str, Any], leaf: Callable[[Any], list[Any]], node: Callable[[Any], list[Any]], top: bool) -> list[Any]:
+        res = [] if top else node(x)
+        if x["k"] == "leaf":
+            return res + leaf(x)
+        if x["k"] == "un":
+            return res + [dict(x, x=y) for y in rewrite(x["x"], leaf, node, False)]
+        return res + [dict(x, l=y) for y in rewrite(x["l"], leaf, node, False)] + [dict(x, r=y) for y in rewrite(x["r"], leaf, node, False)]
+
+    def by_value(x: dict[str, Any]) -> list[Any]:
+        if x["k"] == "leaf":
+            return []
+        cp = f_cpython(x)
+        if cp[0] != "val":
+            return []
+        try:
+            t = f_token_for(eval(f_text(x), dict(F_NS)))
+        except Exception:  # noqa: BLE001
+            return []
+        return [{"k": "leaf", "t": t}] if t else []
+
+    def simpler_leaf(x: dict[str, Any]) -> list[Any]:
+        lst = F_SIMPLER[F_TYPE_OF[x["t"]]]
+        return [dict(x, t=t) for t in lst[:lst.index(x["t"])]]
+
+    def simpler_op(x: dict[str, Any]) -> list[Any]:
+        if x["k"] == "leaf":
+            return []
+        order = F_UNORDER if x["k"] == "un" else F_BINORDER
+        return [dict(x, op=o) for o in order[:order.index(x["op"])]]
+
+    g1 = rewrite(e, lambda x: [], by_value, True)
+    g2 = rewrite(e, simpler_leaf, lambda x: [], True)
+    g3 = simpler_op(e) + rewrite(e, lambda x: [], simpler_op, True)
+    return [g0, g1, g2, g3]
+
+
+def f_kind_task(xs: list[Any]) -> list[str | None]:
+    """All failure kinds an expression shows on any engine, joined (a candidate keeps a failure
+    when the kind searched for is among them)."""
+    cps = [f_cpython(e) for e in xs]
+    keep = [i for i, cp in enumerate(cps) if cp[0] != "excluded"]
+    my, _ = f_mypy([xs[i] for i in keep], plain=True)
+    res: list[str | None] = [None] * len(xs)
+    for i, r in zip(keep, my):
+        ks = sorted({k for k in (f_kind(cps[i], m) for m in r.values()) if k})
+        res[i] = "|".join(ks) if ks else None
+    return res
+
+
+def check_fold(v: Verdict, tier: str, rnd: random.Random, cov: dict[str, Any]) -> dict[str, int]:
+    sany(os.path.join(SPEC, "MC_Fold.tla"))
+    layers = ["L1", "L2q", "L3q"] if tier == "quick" else ["L1", "L2t", "L3t"]
+    states = transitions = 0
+    items: dict[str, tuple[Any, Any, bool]] = {}
+    tl: dict[str, Any] = {}
+    for layer in layers:
+        r = tlc_checked("MC_Fold", "MC_Fold_%s.cfg" % layer)
+        if r.never_fired():
+            raise MachineryError("Fold actions never fired: %s" % r.never_fired())
+        g = tlc_checked("MC_Fold", "Gen_Fold_%s.cfg" % layer)
+        rows = g.json_lines("E")
+        if len(rows) != r.distinct - 1:
+            raise MachineryError("Fold %s: %d expressions emitted for %d states" % (layer, len(rows), r.distinct))
+        states += r.distinct
+        transitions += r.generated
+        tl[layer] = dict(coverage_summary(r), states=r.distinct, transitions=r.generated, expressions=len(rows),
+                         invariants=["DivModLaw", "BitLaw", "ShiftLaw", "RaisePropagates"])
+        for row in rows:
+            for t in re.findall(r'"t": "([a-zA-Z0-9]+)"', json.dumps(row["e"])):
+                if t not in F_TOK:
+                    raise MachineryError("Fold: token %r has no literal in the harness" % t)
+            items.setdefault(json.dumps(row["e"], sort_keys=True), (row["e"], row["s"], layer == "L1"))
+    allx = [items[k] for k in sorted(items)]
+    tasks = []
+    for plain in (True, False):
+        sub = [(e, sv) for e, sv, p in allx if p == plain]
+        per = max(500, min(3000, len(sub) // (NPROC * 2) + 1))
+        tasks += [(sub[lo:lo + per], plain) for lo in range(0, len(sub), per)]
+    t0 = time.time()
+    outs = pool_map(f_chunk, tasks)
+    drift = [d for o in outs for d in o["drift"]]
+    if drift:
+        raise MachineryError("Fold.tla drifts from CPython on %d expressions, e.g. %r" % (len(drift), drift[0]))
+    bad = [b for o in outs for b in o["bad"]]
+    engines_of: dict[str, set[str]] = {}
+
+    def kind_batch(xs: list[Any]) -> list[str | None]:
+        step = max(50, len(xs) // NPROC + 1)
+        return [k for part in pool_map(f_kind_task, [xs[lo:lo + step] for lo in range(0, len(xs), step)]) for k in part]
+
+    # a candidate "keeps the failure" when the searched kind is among the kinds it shows
+    class _Kinds(str):
+        def __eq__(self, other: object) -> bool:
+            return isinstance(other, str) and other in self.split("|")
+        __hash__ = str.__hash__
+
+    def kind_batch2(xs: list[Any]) -> list[str | None]:
+        return [None if k is None else _Kinds(k) for k in kind_batch(xs)]
+
+    mins = minimise([(e, k) for e, k, _ in bad], f_reductions, kind_batch2, lambda e: json.dumps(e, sort_keys=True))
+    for m in sorted(mins, key=lambda m: (m["kind"], f_text(m["input"], pretty=True))):
+        e = m["input"]
+        my, _ = f_mypy([e], plain=True, pristine=True)
+        cp = f_cpython(e)
+        engs = sorted(eng for eng, r_ in my[0].items() if f_kind(cp, r_) == m["kind"])
+        if not engs:
+            raise MachineryError("Fold failure not reproducible: %s %s" % (m["kind"], f_text(e)))
+        v.violation("fold:%s:%s" % (m["kind"], f_text(e, pretty=True)),
+                    {"part": "fold", "expression": f_text(e), "module": F_HEADER + ["X: Final[object] = " + f_text(e)],
+                     "cpython": cp, "engines": {k: list(x) for k, x in my[0].items()}, "failing_engines": engs,
+                     "explains": m["count"]},
+                    "%s: `%s`: CPython %s; %s" % (m["kind"], f_text(e, pretty=True),
+                                                  ("raises " + cp[1]) if cp[0] == "raise" else "gives %s %s" % (cp[1], cp[2][:60]),
+                                                  "; ".join("%s %s" % (k, " ".join(x)[:80]) for k, x in sorted(my[0].items()))))
+    excluded = [x for o in outs for x in o["excluded"]]
+    cov["fold"] = {"expressions_replayed": sum(o["n"] for o in outs), "layers": tl,
+                   "spec_predicts_value": sum(o["spec_values"] for o in outs),
+                   "mypy_folds": sum(o["folded"] for o in outs), "mypyc_folds": sum(o["folded_mypyc"] for o in outs),
+                   "raise_at_run_time": sum(o["raises"] for o in outs),
+                   "excluded_by_size_guard": len(excluded), "excluded_examples": [x[:100] for x in excluded[:8]],
+                   "mypy_builds": sum(o["builds"] for o in outs), "disagreements": len(bad), "minimal_classes": len(mins),
+                   "replay_wall_s": round(time.time() - t0, 1),
+                   "sample": next((o["sample"] for o in outs if o["sample"]), None)}
+    return {"states": states, "transitions": transitions, "replayed": sum(o["n"] for o in outs) - len(excluded),
+            "failing": len(bad), "nontrivial": sum(o["folded"] for o in outs)}
+
+
 # =========================================================================== main
+PARTS = ["argbind", "c3", "reach", "fold"]
+ASSUMPTIONS = [
+    "oracle = the CPython running the harness (3.12): real calls, real class creation, eval with a fake sys whose "
+    "version_info is the 5-tuple (3, minor, micro, 'final', 0), eval of the expression text",
+    "argument binding: all parameters and values are int, so every diagnostic on a call line is an arity/keyword "
+    "rejection; **mappings are total TypedDicts, *iterables fixed-length tuples (the shapes whose binding mypy decides)",
+    "mypy runs in-process (mypy.build.build, real typeshed, --python-version/--platform as configured per target); "
+    "mypyc's constant_fold_expr is called directly on the analysed AST",
+    "a discovery build that survives crashing call lines / folds is used only to find them; every verdict on a "
+    "non-crashing line comes from an unmodified build and every reported minimal input is reproduced alone with unmodified mypy",
+    "folding: expressions whose value would be huge (ints over 8192 bits, strings over 10^4 characters) are "
+    "excluded for CPython and mypy alike and counted",
+]
+
+
+def replay_one(path: str) -> int:
+    with open(path) as f:
+        rep = json.load(f)
+    d = rep["replay"]
+    print("replaying", rep["key"])
+    if d["part"] in ("argbind", "fold"):
+        r = run_mypy("\n".join(d["module"]) + "\n")
+        print("mypy:", "INTERNAL ERROR " + r.crash if r.crash_line else (r.errors or "no diagnostics"))
+        print("recorded: cpython", d.get("cpython"), "mypy", d.get("mypy", d.get("engines")))
+    elif d["part"] == "c3":
+        print(d)
+    else:
+        m = re.match(r"3\.(\d+)", d["python_version"])
+        assert m
+        print("mypy static value:", r_mypy([d["condition"]], int(m.group(1)), d["platform"])[0], "recorded run-time value:", d["runtime_value"])
+    return 0
+
+
 def main(argv: list[str]) -> int:
     global _SCRATCH
     tier, seed, replay = parse_args(argv)
+    _SCRATCH = scratch("c12-")
+    if replay:
+        return replay_one(replay)
     v = Verdict(PID, tier, seed)
     rnd = random.Random(seed)
-    _SCRATCH = scratch("c12-")
     cov: dict[str, Any] = {}
-    only = os.environ.get("C12_ONLY", "").split(",") if os.environ.get("C12_ONLY") else None
-    totals = {}
-    if not only or "argbind" in only:
-        sany(os.path.join(SPEC, "MC_ArgBind.tla"))
-        totals["argbind"] = check_argbind(v, tier, rnd, cov)
-    print(json.dumps(totals))
-    print(json.dumps(cov, indent=1)[:3000])
-    print("violations", len(v.violations), "known", len(v.known_hit))
-    return 1 if v.violations else 0
+    only = [p for p in os.environ.get("C12_ONLY", "").split(",") if p] or PARTS
+    for m in ("MC_ArgBind", "MC_C3", "MC_Reach", "MC_Fold"):
+        sany(os.path.join(SPEC, m + ".tla"))
+    tlc_prefetch(tier, seed, [p for p in PARTS if p in only])
+    checks = {"argbind": check_argbind, "c3": check_c3, "reach": check_reach, "fold": check_fold}
+    totals: dict[str, dict[str, int]] = {}
+    for part in PARTS:
+        if part in only:
+            t0 = time.time()
+            totals[part] = checks[part](v, tier, rnd, cov)
+            totals[part]["wall_s"] = int(time.time() - t0)
+            print("%s: %s" % (part, json.dumps(totals[part])), flush=True)
+    replayed = sum(t["replayed"] for t in totals.values())
+    if replayed == 0 or any(t["replayed"] == 0 for t in totals.values()):
+        raise MachineryError("conformance step did not run: %r" % totals)
+    samples = [cov[k]["sample"] for k in cov if isinstance(cov[k], dict) and cov[k].get("sample")]
+    coverage = {
+        "states": sum(t["states"] for t in totals.values()),
+        "transitions": sum(t["transitions"] for t in totals.values()),
+        "traces_validated_against_impl": replayed,
+        "evaluations": replayed,
+        "distinct_nontrivial": sum(t.get("nontrivial", t.get("failing", 0)) for t in totals.values()) +
+                               (cov.get("argbind/3x2", cov.get("argbind/4x3", {})).get("cpython_rejects", 0)),
+        "rule": "every input TLC emits is replayed: (signature, call) pairs, class hierarchies, (condition, target) pairs, "
+                "constant expressions; each is executed by CPython (oracle, also validates the specification) and given to "
+                "mypy / mypyc.  non-trivial = calls CPython rejects + hierarchies with multiple inheritance + "
+                "(condition, target) pairs mypy decides statically + expressions mypy folds",
+        "per_part": totals,
+        "inputs_disagreeing_before_minimisation": sum(t["failing"] for t in totals.values()),
+        "samples": samples,
+        "exhaustive": tier == "thorough" and only == PARTS,
+        "exhaustive_note": "complete for the stated bounds of each part (see notes/C12.md); the 4-parameter x 4-actual "
+                           "product and 6-class hierarchies are seeded samples; quick restricts the literal/target grid",
+        "parts_run": only,
+    }
+    coverage.update(cov)
+    return v.finish("model_checking", coverage, ASSUMPTIONS)
 
 
 if __name__ == "__main__":
     try:
-        sys.exit(main(sys.argv[1:]))
+        rc = main(sys.argv[1:])
     except MachineryError as e:
         print("MACHINERY FAILURE:", e, file=sys.stderr)
-        sys.exit(2)
+        rc = 2
+    if _POOL is not None:
+        procs = list(getattr(_POOL, "_processes", {}).values())
+        _POOL.shutdown(wait=False, cancel_futures=True)
+        for pr in procs:
+            pr.terminate()
+    sys.exit(rc)
